@@ -19,6 +19,7 @@ import (
 	"crypto/sha256"
 	"fmt"
 	"math"
+	"os"
 	"sort"
 	"strings"
 	"time"
@@ -841,6 +842,9 @@ func f3Witness(e *Env, ctx context.Context) {
 	e.Res.Violations = e.Res.Violations[:saved]
 	_, _, v1, _ := h.observe(1)
 	_, _, v2, _ := h.observe(2)
+	if os.Getenv("VERIF_DEBUG") != "" {
+		fmt.Println("F3 witness:", v1["rate"], v2["rate"], h.desc)
+	}
 	if fmt.Sprint(v1["rate"]) != fmt.Sprint(v2["rate"]) {
 		e.violate("float-counter-order", fmt.Sprintf("both nodes merged the same commits (0.2, +0.1, +0.3): one reads rate=%v, the other %v", v1["rate"], v2["rate"]), h.replay())
 	}
